@@ -15,7 +15,7 @@ CHECKS = {
         "draw is preceded by the absorption of every earlier prover message in protocol order, that what is absorbed is what the proof "
         "carries, that the seed covers every field of the context and the public inputs, and that used challenges come from their draws. "
         "Necessary structural condition of the property for every AIR/field/hasher/coin at once; equality of the hash values computed "
-        "on the two sides is not decided.",
+        "on the two sides is not decided. The digest absorbed for the OOD trace frame covers every data-carrying field by CONTENT (a field whose length alone reaches the hashed buffer is not covered); a hand-written chunk loop in to_elements must tile the whole field (evaluated for every length up to four elements and every element size); (SENT) the FRI remainder carried in the proof is the one whose hash was absorbed.",
    design_ref="DESIGN.md §3 C04"),
 }
 CHECKS["C05"] = dict(
@@ -48,7 +48,7 @@ CHECKS["C13"] = dict(
         "advances the cursor, that the &self look-ahead methods cannot consume, that truncating the spill buffer is paired with a store to "
         "the position and buffered bytes are only read positioned by it, and that end-of-data is reported/latched only under an observed "
         "empty fill or reader error. Necessary conditions of `each byte exactly once` and `never reports missing data that is available`; "
-        "value equality with the slice reader for all chunkings is not decided. REFILL: the end-of-data-reporting refill functions are called only after a decision `buffered < requested` (strict) or `local buffer empty` on every path. AMT: every copy out of a buffer is followed by an advance of exactly the copied count. STALE: a copy of the position taken before the buffer is compacted is not used afterwards. MORE: has_more_bytes answers false only after the local buffer was observed empty.",
+        "value equality with the slice reader for all chunkings is not decided. REFILL: the end-of-data-reporting refill functions are called only after a decision `buffered < requested` (strict) or `local buffer empty` on every path. AMT: every copy out of a buffer is followed by an advance of exactly the copied count. STALE: a copy of the position taken before the buffer is compacted is not used afterwards. MORE: has_more_bytes answers false only after the local buffer was observed empty.  AMT counts slice copies (copy_from_slice) like raw copies and requires bytes handed to the caller to come from the unread view of the local buffer.",
    design_ref="DESIGN.md §3 C13")
 CHECKS["C19"] = dict(
    technique="static analysis: data-flow dependence shape of every RandomCoin method on all paths, must-pass state updates, canonical comparison of the prover's and verifier's proof-of-work predicates",
@@ -56,7 +56,7 @@ CHECKS["C19"] = dict(
         "(new/reseed/next/draw_integers), that every drawn element is the Some payload of the field's validated conversion of a fresh next() "
         "output and the counter advances once per output, that integers are next() outputs reduced to the power-of-two domain (mask or remainder) and counted, that the proof-of-work measure is read-only and "
         "counter-independent, and that the prover's search predicate is the exact complement of the verifier's reject predicate. Statistical "
-        "statements are not decided.",
+        "statements are not decided. (VALID) from_random_bytes, the conversion behind draw, constructs only elements inside the field's representation range for every byte string (interval analysis, shared with C07's REPR).",
    design_ref="DESIGN.md §3 C19")
 CHECKS["C15"] = dict(
    technique="static analysis: typestate (clean/dirty) as must-pass-through on all return paths, control-dependence of the divisibility decision, sibling agreement of prover and verifier loops",
@@ -64,7 +64,7 @@ CHECKS["C15"] = dict(
         "build_layers refuses to run unless clean and always stores a remainder, that FriVerifier::new exempts the remainder commitment from "
         "the divisibility requirement, and that prover and verifier take the layer count from FriOptions::num_fri_layers and fold positions/"
         "shrink the domain once per layer with the same function. Necessary conditions of reuse and of acceptance of honest proofs with short "
-        "remainders; the folding identity is not decided.",
+        "remainders; the folding identity is not decided. (SENT) the remainder handed to FriProof::new is the stored remainder polynomial reached through copies only, and the stored vector is the one whose hash was committed; (T, carried state) no field written while building a proof survives reset() to be rebuilt only behind an ordering test on its own size; (WIDTH) the length prefixes of FriProof/FriProofLayer hold the byte strings of a legal schedule.",
    design_ref="DESIGN.md §3 C15")
 CHECKS["C02"] = dict(
    technique="static analysis: MUST-GUARDS (OOD-consistency decision dominates acceptance), dependence of the verifier's constraint evaluation on every family, complementary coefficient partition, seed field coverage",
@@ -74,7 +74,7 @@ CHECKS["C02"] = dict(
         "randomness), and that the statement (context with every field, public inputs) is bound into the seed. Necessary conditions of soundness "
         "for every AIR; (EXEMPT) ConstraintDivisor::from_transition(n, k) exempts exactly the points g^s, n-k <= s < n (decided for the mapped-range "
         "and push-loop forms; a window shifted by constants or a running point multiplied by itself is reported; other forms are not decided). "
-        "The remaining divisor arithmetic and rejection for every invalid trace are not decided.",
+        "The remaining divisor arithmetic and rejection for every invalid trace are not decided. (ADIV) ConstraintDivisor::from_assertion builds x^k - g^(k*first_step) with k = get_num_steps: degree, exponent (the product of exactly these two values), domain of the generator, the constant ONE only behind the true edge of first_step == 0, no exemption points. (COUNT) coefficient-drawing loops run over 0..N.",
    design_ref="DESIGN.md §3 C03/C05/C02")
 CHECKS["C17"] = dict(
    technique="static analysis: writer/reader agreement by data-flow dependence with callee summaries, control-dependence of the classification, unit consistency of domain-scale accessors",
@@ -82,7 +82,7 @@ CHECKS["C17"] = dict(
         "result, that the classification by polynomial length is a partition stored class by class, that the pre-evaluated representation "
         "uses constraint-evaluation-domain units for both values and step offset, that every evaluation column is folded with its divisor, "
         "that the full-fragment evaluator includes the auxiliary terms, and (shared with C02) that coefficients are partitioned and the "
-        "verifier's evaluation depends on every family. Numerical equality with the definition is not decided.",
+        "verifier's evaluation depends on every family. Numerical equality with the definition is not decided. (COLS, shared with C01) the number of composition columns is max(1, ceil((D+1)/trace_length)); (DERIVED) no cached column count survives a setter of the exemption count.",
    design_ref="DESIGN.md §3 C17")
 CHECKS["C07"] = dict(
    technique="static analysis: exact integer arithmetic on constants extracted from the compiled crates (Lucas primality proof, orders), MUST-GUARDS for modulus decisions with comparison width, MIR lint for normalisation and canonical serialisation, interval abstract interpretation with case splits for the representation range, abstract interpretation in the domain of exact integer-linear forms with quotient/remainder atoms (E5b) for the carry/borrow logic",
@@ -106,7 +106,7 @@ CHECKS["C11"] = dict(
         "length-dependent value into a fixed capacity position, and (FAST) that mds_multiply for the 12x12 and 8x8 matrices stores, for every input "
         "state and on every carry case of its final reduction, values congruent modulo p to the product with the hasher's MDS table (limb split, "
         "real FFTs, Hadamard blocks and inverse FFTs without overflow included). Equality with the reference permutations beyond the MDS layer "
-        "(round constants, S-box exponents) is not decided.",
+        "(round constants, S-box exponents) is not decided. (ZPAD) in every Rescue byte sponge a chunk of variable length is copied into a staging buffer re-initialised since the chunk was fetched (no bytes of the previous chunk behind the padding byte).",
    design_ref="DESIGN.md §3 C11")
 CHECKS["C12"] = dict(
    technique="static analysis: token-grammar extraction from the MIR of every write_into/read_from pair with path-set comparison; limit agreement between constructor assertions, writer casts and reader decisions",
@@ -116,7 +116,7 @@ CHECKS["C12"] = dict(
         "constructor's arithmetic is unchecked), and that the set of shapes accepted by read_from equals the set accepted by the constructor "
         "(accepted sets compared as unions of boxes with sum constraints). Decides the structural half "
         "of the round trip (in particular for Proof, which no test round-trips); equality of decoded field values and reader-implementation "
-        "independence are C07/C13.",
+        "independence are C07/C13. (WIDTH) every length prefix written for a byte-string field of a proof component (10 prefixes; widths read from the writer's MIR, protocol limits from the compiled constants) holds the length that field has in an ordinary legal configuration — a prefix narrowed consistently on both sides is reported; for winter-fri's stand-alone FriProof the limit is what FriOptions::new accepts (E4): its 16-bit remainder prefix is an open known finding. (VINT) the function computing the encoded length of write_usize is evaluated by the interval engine on a partition of all 64-bit values into 129 bit-length classes: the length is 9 or holds the value in 7 bits per byte.",
    design_ref="DESIGN.md §3 C12")
 CHECKS["C14"] = dict(
    technique="static analysis (lint over the MIR of the `concurrent` build configuration): who-may-call rule for scheduling-dependent combinators, inventory of raw-pointer reborrows in parallel code, consumption rule for the worker count, sibling signatures",
@@ -125,7 +125,7 @@ CHECKS["C14"] = dict(
         "reviewed ones; the raw worker count is consumed only through next_power_of_two() so batch boundaries stay aligned for every pool "
         "size; in fragment evaluators a row position handed to anything but the fragment derives from fragment.offset(); public functions of "
         "`concurrent` modules have serial siblings with identical signatures. Index-disjointness at the raw-pointer "
-        "sites and bit-identity of results are not decided.",
+        "sites and bit-identity of results are not decided. (Z) a per-batch count x / batches(size) divides the quantity the thresholded batch-count helper was asked about, or the batch count is capped by x (genuine defect F32 of the pinned tree, repaired).",
    design_ref="DESIGN.md §3 C14")
 CHECKS["C08"] = dict(
    technique="static analysis: symbolic evaluation of MIR into polynomial normal forms over F_p (E5) + exact number theory on extracted constants (E6) + layout/dataflow rules",
@@ -146,7 +146,7 @@ CHECKS["C10"] = dict(
         "position list and single paths attacker-controlled, no overflow / bounds / unwrap / explicit panic site in get_root, into_paths, verify, "
         "verify_batch, deserialize remains unproven when its operands were compared at all; loop-counter indexes whose bound is an inductive "
         "invariant are listed as undecided. (O) into_paths answers in the caller's position order. NOT decided: that honest openings verify, "
-        "from_paths/into_paths round trips, and that a changed leaf or node changes the root (collision resistance of the hash). (L) one layout convention for `leaves`: readers index through map_indexes, builders through a position map, never the rank in the sorted list.",
+        "from_paths/into_paths round trips, and that a changed leaf or node changes the root (collision resistance of the hash). (L) one layout convention for `leaves`: readers index through map_indexes, builders through a position map, never the rank in the sorted list.  Parallel indexing: a caller-ordered parameter is never read with the counter that indexes a list re-ordered through a BTreeMap.",
    design_ref="DESIGN.md §3 C10")
 CHECKS["C01"] = dict(
    technique="static analysis: abstract interpretation over the honest parameter range (E4), writer/reader token-grammar comparison (E7), must-pass-through on the expanded prover and verifier CFGs (E1), dataflow unit rule (E3)",
@@ -158,7 +158,7 @@ CHECKS["C01"] = dict(
         "proof; (U) the prover's pre-evaluated boundary constraints use constraint-evaluation-domain units; (X, A) the FRI verifier exempts the "
         "remainder from the divisibility test, tests the bound of the current layer, and agrees with the prover on the layer schedule; (COLS) "
         "the number of composition columns is max(1, ceil((D+1)/trace_length)) for the composition degree D, compared symbolically on a grid "
-        "containing the multiples of the trace length.",
+        "containing the multiples of the trace length. (WIDTH) no length prefix of a proof component truncates the length of an ordinary legal proof; (DERIVED) a field computed at construction from the variable that initialises another field is re-assigned by every setter of that field (no stale cached column count); (SENT) the FRI remainder placed in the proof is the committed one.",
    design_ref="DESIGN.md §3 C01")
 CHECKS["C06"] = dict(
    technique="static analysis: inter-procedural, path-sensitive abstract interpretation of MIR (intervals + power-of-two + lengths + variant sets + relational facts on tagged values) with taint from the byte readers",
